@@ -16,8 +16,12 @@ def scenarios(rng, tier):
     out.append(dict(w=132, h=92, n=17, stat=1, **{'f:enc_mode': 8, 'f:tf_level': 0}))
     out.append(dict(w=100, h=70, n=8, stat=1, content=4, **{'f:enc_mode': 8, 'f:qp': 63}))                                  # extreme content, large errors
     out.append(dict(w=100, h=70, n=8, stat=1, **{'f:enc_mode': 8, 'f:rate_control_mode': 1, 'f:target_bit_rate': 100000}))
+    # reconstruction output disabled: the encoder may skip work it only does for the recon port; the statistics must still be those of the decoded picture
+    out.append(dict(w=192, h=128, n=17, stat=1, recon=0, decode=1, **{'f:enc_mode': 8, 'f:qp': 32}))
+    out.append(dict(w=132, h=92, n=10, stat=1, recon=0, decode=1, content=1, **{'f:enc_mode': 6}))
     if tier == 'thorough':
         out.append(dict(w=132, h=92, n=10, stat=1, **{'f:enc_mode': 4}))
+        out.append(dict(w=200, h=136, n=17, stat=1, recon=0, decode=1, content=6, **{'f:enc_mode': 7, 'f:qp': 45}))
     return out
 
 
@@ -40,8 +44,15 @@ def run(ck):
         rec = {x['pts']: x for x in h['recon']}
         rep = []; comp = []
         okc = True
+        norecon = a.get('recon', 1) == 0
+        bypts = sorted(range(len(h['pkts'])), key=lambda i: h['pkts'][i]['pts'])     # display position of each packet
+        pos = {i: d for d, i in enumerate(bypts)}
         for k, p in enumerate(h['pkts']):
-            x = rec.get(k)
+            if norecon:
+                d = h['dec'][pos[k]] if pos[k] < len(h['dec']) else None
+                x = dict(sse=d['dsse']) if d and 'dsse' in d else None
+            else:
+                x = rec.get(k)
             if x is None or 'sse' not in x:
                 okc = False; break
             rep += [p['luma_sse'], p['cb_sse'], p['cr_sse']]; comp += x['sse']
@@ -49,7 +60,7 @@ def run(ck):
         if not okc:
             ck.obligation('recomputed SSE available for every packet', False, e2e.describe(a)); continue
         # every recon picture must also equal the decoded picture of that position (so that "decoded from that packet" is what was compared)
-        dech = [d['hash'] for d in h['dec']]; rech = [rec[k]['hash'] for k in range(len(h['pkts']))]
+        dech = [d['hash'] for d in h['dec']]; rech = [rec[k]['hash'] for k in range(len(h['pkts']))] if not norecon else dech
         if dech != rech:
             ck.note = 'recon != decode in ' + e2e.describe(a)
         lines.append('C26 %d %s %s' % (len(h['pkts']), ' '.join(map(str, rep)), ' '.join(map(str, comp)))); meta.append((a, r, rep, comp))
@@ -59,7 +70,7 @@ def run(ck):
     for (a, r, rep, comp), v in zip(meta, verdicts):
         if v != '1':
             i = [j for j in range(len(rep)) if rep[j] != comp[j] % (1 << 32)][0]
-            ck.violation('sse_inexact:%dx%d' % (a['w'], a['h']), 'packet %d plane %s: reported SSE %d, recomputed %d (%s)' % (i // 3, 'Y Cb Cr'.split()[i % 3], rep[i], comp[i], e2e.describe(a)),
+            ck.violation('sse_inexact:%s%dx%d' % ('recon_disabled:' if a.get('recon', 1) == 0 else '', a['w'], a['h']), 'packet %d plane %s: reported SSE %d, recomputed %d (%s)' % (i // 3, 'Y Cb Cr'.split()[i % 3], rep[i], comp[i], e2e.describe(a)),
                          dict(scenario=a, packet=i // 3, plane=i % 3, reported=rep[i], recomputed=comp[i], cmd=r.get('cmd')), True)
     ck.cov['traces_validated_against_impl'] = len(lines)
     ck.cov['packets_with_nonzero_sse'] = nz
